@@ -64,6 +64,8 @@ type c14Index struct {
 
 type c14Pair struct{ a, b *s2.Loop }
 
+type c14PolyPair struct{ a, b *s2.Polygon }
+
 func c14Scenarios() []*c14Scenario {
 	in, nearOut, far := c14Points()
 	cellIn := s2.CellFromCellID(s2.CellFromPoint(in).ID().Parent(9))
@@ -185,6 +187,24 @@ func c14Scenarios() []*c14Scenario {
 				return fmt.Sprint(h, p.IntersectsCell(s2.CellFromPoint(s2.PointFromLatLng(s2.LatLngFromDegrees(22, 38)))))
 			}},
 		}, Index: func(sh any) []*s2.ShapeIndex { return []*s2.ShapeIndex{sh.(*s2.Polygon).VerifIndex()} }},
+		{Name: "S7-two-polygons-relations", Mk: func() any {
+			b := s2.PolygonFromLoops([]*s2.Loop{s2.RegularLoop(ringPt, s1.Degree*1, 34)})
+			return &c14PolyPair{mkPoly(), b}
+		}, Ops: []c14Op{
+			{"PolygonA.Contains(PolygonB)", func(sh any) string { p := sh.(*c14PolyPair); return fmt.Sprint(p.a.Contains(p.b)) }},
+			{"PolygonB.Intersects(PolygonA)", func(sh any) string { p := sh.(*c14PolyPair); return fmt.Sprint(p.b.Intersects(p.a)) }},
+			{"PolygonA.ContainsPoint + PolygonB.ContainsCell", func(sh any) string {
+				p := sh.(*c14PolyPair)
+				return fmt.Sprint(p.a.ContainsPoint(ringPt), p.b.ContainsCell(s2.CellFromCellID(s2.CellFromPoint(ringPt).ID().Parent(14))))
+			}},
+		}, Index: func(sh any) []*s2.ShapeIndex {
+			p := sh.(*c14PolyPair)
+			out := []*s2.ShapeIndex{p.a.VerifIndex(), p.b.VerifIndex()}
+			for _, l := range append(append([]*s2.Loop(nil), p.a.Loops()...), p.b.Loops()...) {
+				out = append(out, l.VerifIndex())
+			}
+			return out
+		}},
 		{Name: "S5-loop40-prebuilt", Prebuilt: true, Mk: func() any { l := c14Loop(40); l.VerifIndex().Build(); return l }, Ops: loopOps,
 			Index: func(sh any) []*s2.ShapeIndex { return []*s2.ShapeIndex{sh.(*s2.Loop).VerifIndex()} }},
 	}
@@ -438,9 +458,13 @@ func runC14(c *core.Ctx) {
 		}
 		maxB3 := core.Pick(c, 2, 3)
 		maxB2 := core.Pick(c, 2, 5)
-		heavy := strings.HasPrefix(s.Name, "S3b") || strings.HasPrefix(s.Name, "S4") || strings.HasPrefix(s.Name, "S2")
+		heavy := strings.HasPrefix(s.Name, "S3b") || strings.HasPrefix(s.Name, "S4") || strings.HasPrefix(s.Name, "S2") || strings.HasPrefix(s.Name, "S7")
 		if heavy && c.Quick() {
 			maxB3 = 1
+		}
+		veryHeavy := strings.HasPrefix(s.Name, "S7") // two polygons + their loops: six indexes
+		if veryHeavy && c.Quick() {
+			maxB2 = 1
 		}
 		if os.Getenv("C14_UNBOUNDED_ONLY") == "" {
 			jobs = append(jobs, c14Job{s, 2, maxB2, core.Pick(c, 1, 4)})
@@ -452,7 +476,9 @@ func runC14(c *core.Ctx) {
 		// thorough tier
 		// two threads: in both tiers; three threads: thorough tier, with a cap on executions for the
 		// scenarios whose state space is too large (reported as truncated, i.e. not exhaustive)
-		jobs = append(jobs, c14Job{s, 2, -1, 1})
+		if !(veryHeavy && c.Quick()) {
+			jobs = append(jobs, c14Job{s, 2, -1, 1})
+		}
 		// full-memory race pass (the happens-before check does not need the two accesses to be
 		// interleaved, so small bounds already expose every race on a path the threads execute)
 		memJobs = append(memJobs, c14Job{s, 2, core.Pick(c, 1, 3), core.Pick(c, 1, 4)})
